@@ -469,6 +469,10 @@ func mkOptStrs(optName string) []string {
 func (c *Cmd) mkOpt(opt container.Container) {
 	opt.DefaultValue = values.DefaultValue(opt.Value)
 	opt.ValueSetFromEnv = values.SetFromEnv(opt.Value, opt.EnvVar)
+	if opt.ValueSetByUser != nil {
+		// like the value itself, the flag does not keep what the caller's variable held before
+		*opt.ValueSetByUser = false
+	}
 
 	opt.Names = mkOptStrs(opt.Name)
 
